@@ -473,7 +473,7 @@ def joint_assessment(ctx, repo):
         flagtests = [t for t in flagtests if not _only_seen_test(fd, t, derived)]
         inner_flag = [t for t, pol, hd_ in inner if any(isinstance(x, ast.Name) and x.id in hd_ for x in ast.walk(t))]
         allf = flagtests + inner_flag
-        cmp_ok = len(allf) == 1 and isinstance(allf[0], ast.Compare) and len(allf[0].ops) == 1 and isinstance(allf[0].ops[0], (ast.NotEq, ast.Eq, ast.IsNot, ast.Is)) and all(isinstance(side, ast.Name) for side in (allf[0].left, allf[0].comparators[0]))
+        cmp_ok = len(allf) == 1 and isinstance(allf[0], ast.Compare) and len(allf[0].ops) == 1 and isinstance(allf[0].ops[0], (ast.NotEq, ast.Eq, ast.IsNot, ast.Is)) and all(isinstance(side, (ast.Name, ast.Subscript)) and not any(isinstance(x, ast.Constant) for x in ast.walk(side)) for side in (allf[0].left, allf[0].comparators[0]))
         ctx.ob("F7", ok=cmp_ok, distinct=getattr(node, "lineno", 0))
         if not cmp_ok:
             extra = [ast.unparse(t) for t in allf]
